@@ -123,6 +123,52 @@ p='src/mxlpy/mca.py'; s=open(p).read()
 old="    if value == 0:\\n"
 assert s.count(old)==1; s=s.replace(old,"    if abs(value) <= 1e-8:\\n"); open(p,'w').write(s)
 ''',
+    # ---- 4th pass: parameters acting indirectly (computed parameters, assigned initial values, stoichiometry) ----
+    'i1': r'''# shape of seeded C18-7: parameter_elasticities hands the displaced value over in `variables`, model not updated
+p='src/mxlpy/mca.py'; s=open(p).read()
+old="""        model.update_parameters({par: upper_value})
+        upper = model.get_fluxes(variables=variables, time=time)
+
+        model.update_parameters({par: lower_value})
+        lower = model.get_fluxes(variables=variables, time=time)
+
+        # Reset
+        model.update_parameters({par: old})
+"""
+new="""        upper = model.get_fluxes(variables=variables | {par: upper_value}, time=time)
+        lower = model.get_fluxes(variables=variables | {par: lower_value}, time=time)
+"""
+assert s.count(old)==1; s=s.replace(old,new); open(p,'w').write(s)
+''',
+    'i2': r'''# shape of seeded C18-8: the worker snapshots the EVALUATED initial conditions of all variables
+p='src/mxlpy/mca.py'; s=open(p).read()
+old="        raw_variables = model.get_raw_variables(as_copy=False)\n        old_y0 = {k: raw_variables[k].initial_value for k in y0}\n"
+assert s.count(old)==1; s=s.replace(old,"        old_y0 = model.get_initial_conditions()\n"); open(p,'w').write(s)
+''',
+    'i3': r'''# shape of seeded C18-9: parameters reported by get_unused_parameters() are not run, their columns are 0
+p='src/mxlpy/mca.py'; s=open(p).read()
+old="        inputs=list(zip(to_scan, to_scan, strict=True)),\n"
+assert s.count(old)==1
+s=s.replace(old,"        inputs=[(k, k) for k in to_scan if k not in model.get_unused_parameters()],\n")
+a="variables=pd.DataFrame({k: v[0] for k, v in res}),"; b="fluxes=pd.DataFrame({k: v[1] for k, v in res}),"
+assert s.count(a)==1 and s.count(b)==1
+s=s.replace(a,"variables=pd.DataFrame({k: v[0] for k, v in res}).reindex(columns=to_scan, fill_value=0.0),")
+s=s.replace(b,"fluxes=pd.DataFrame({k: v[1] for k, v in res}).reindex(columns=to_scan, fill_value=0.0),")
+open(p,'w').write(s)
+''',
+    'i4': r'''# worker: snapshot = the evaluated value of the OVERRIDDEN variables only (an overridden assignment becomes a number)
+p='src/mxlpy/mca.py'; s=open(p).read()
+old="        raw_variables = model.get_raw_variables(as_copy=False)\n        old_y0 = {k: raw_variables[k].initial_value for k in y0}\n"
+assert s.count(old)==1
+s=s.replace(old,"        evaluated = model.get_initial_conditions()\n        old_y0 = {k: evaluated[k] for k in y0}\n"); open(p,'w').write(s)
+''',
+    'i5': r'''# parameter_elasticities: the default state is read AFTER the first perturbation (assigned initial values follow it)
+p='src/mxlpy/mca.py'; s=open(p).read()
+old="        model.update_parameters({par: upper_value})\n        upper = model.get_fluxes(variables=variables, time=time)\n"
+assert s.count(old)==1
+s=s.replace(old,"        model.update_parameters({par: upper_value})\n        upper = model.get_fluxes(variables=None if variables == model.get_initial_conditions() else variables, time=time)\n")
+open(p,'w').write(s)
+''',
 }
 
 
